@@ -64,7 +64,7 @@ class C09(CheckBase):
     quick_runs = 1000
     thorough_runs = 30000
     quick_budget_s = 75
-    thorough_budget_s = 3000
+    thorough_budget_s = 4200
     run_timeout = 90
     det_sample_quick = 16
     det_sample_thorough = 96
@@ -142,8 +142,9 @@ class C09(CheckBase):
         self.weights = ops_mod.kind_weights()
         self.kinds = sorted(k for k in ops_mod.OPS if not k.startswith('canary.'))
         self.kind_w = [self.weights[k] for k in self.kinds]
-        self.thorough_runs = self.N_RANDOM_THOROUGH + 2 * self.n_pairs() + 8 * len(self.kinds)
-        self.quick_runs = 1000 + len(self.kinds)
+        self.thorough_runs = self.N_RANDOM_THOROUGH + 2 * self.n_pairs() + 8 * len(self.kinds) + \
+            4 * self.N_PREEMPT_POINTS * len(self.kinds)
+        self.quick_runs = 900 + 2 * len(self.kinds)
         self.wrapped_locks = wrap_module_locks([m for n, m in sorted(sys.modules.items())
                                                 if m is not None and (n == 'geodepy' or n.startswith('geodepy.'))])
         self.sut_codes = sut_code_objects([m for n, m in sorted(sys.modules.items())
@@ -190,6 +191,25 @@ class C09(CheckBase):
             'thread': tid, 'op': opid})
 
     # -------------------------------------------------------------- snapshots
+    @staticmethod
+    def process_state():
+        """interpreter-wide state a pure library call has no business changing"""
+        import warnings, decimal, locale, random as _r
+        import numpy as _np
+        return {
+            'warnings.filters': repr([(f[0], getattr(f[1], 'pattern', f[1]), getattr(f[2], '__name__', f[2]),
+                                       getattr(f[3], 'pattern', f[3]), f[4]) for f in warnings.filters]),
+            'numpy.errstate': repr(sorted(_np.geterr().items())),
+            'numpy.printoptions': repr(sorted((k, repr(v)) for k, v in _np.get_printoptions().items())),
+            'decimal.context': repr(decimal.getcontext()),
+            'locale': repr(locale.getlocale()),
+            'sys.recursionlimit': repr(sys.getrecursionlimit()),
+            'sys.switchinterval': repr(sys.getswitchinterval()),
+            'random.state': short_hash(repr(_r.getstate()), 12),
+            'os.cwd': os.getcwd(),
+            'os.environ': short_hash(repr(sorted(os.environ.items())), 12),
+        }
+
     def fast_snapshot(self):
         return [repr(sorted(obj_state(o).items(), key=lambda kv: kv[0])) for _, o in self.cat_objs]
 
@@ -306,14 +326,38 @@ class C09(CheckBase):
                 'sched': {'mode': 'rw', 'p': rng.choice([0.5, 0.5, 0.25, 0.75]), 'seed': rng.getrandbits(64)}, 'switches': [],
                 'opcode_salt': None, 'scribble': False, 'focus': [k], 'pair_sweep': True, 'granularity': 'instr'}
 
+    N_PREEMPT_POINTS = 48
+
+    def _preempt_trace(self, rng, kind_index, frac, variant):
+        """Systematic concurrency sweep (pre-emption bound 1, and the symmetric bound-2 schedule): an op kind
+        races with itself; thread 0 is stopped at the pre-emption point that lies `frac` of the way through
+        its call (line or instruction granularity), thread 1 then runs either to completion (single) or to
+        the SAME point of its own call, after which thread 0 resumes (diag: both callers inside the same
+        critical window).  The point is resolved from the call's measured length, so a sweep over frac
+        visits every line of every function."""
+        k = self.kinds[kind_index % len(self.kinds)]
+        ops = [{'id': n, 'kind': k, 'args': ops_mod.OPS[k][1](rng, self.ctx), 'thread': n} for n in range(2)]
+        return {'property': 'C09', 'threads': 2, 'ops': ops, 'shared': [], 'faults': [],
+                'sched': {'mode': 'preempt', 'frac': round(frac, 5), 'diag': bool(variant & 1)}, 'switches': [],
+                'opcode_salt': None, 'scribble': False, 'focus': [k], 'pair_sweep': True,
+                'granularity': 'instr' if variant & 2 else 'line'}
+
     def generate(self, rng, i, tier):
-        if i < len(self.kinds):
+        K = len(self.kinds)
+        if i < K:
             return self._same_kind_trace(rng, i)
+        if i < 2 * K:
+            return self._preempt_trace(rng, i - K, rng.random(), (i - K) % 4)
         if tier == 'thorough' and i >= self.N_RANDOM_THOROUGH:
             j = i - self.N_RANDOM_THOROUGH
-            if j >= 2 * self.n_pairs():
-                return self._same_kind_trace(rng, j - 2 * self.n_pairs())
-            return self._pair_trace(rng, j)
+            if j < 2 * self.n_pairs():
+                return self._pair_trace(rng, j)
+            j -= 2 * self.n_pairs()
+            if j < 8 * K:
+                return self._same_kind_trace(rng, j)
+            j -= 8 * K
+            point, rest = j % self.N_PREEMPT_POINTS, j // self.N_PREEMPT_POINTS
+            return self._preempt_trace(rng, rest // 4, (point + 0.5) / self.N_PREEMPT_POINTS, rest % 4)
         cls = rng.randrange(10)
         if cls < 2:
             T = 1
@@ -489,8 +533,15 @@ class C09(CheckBase):
         env.reset_shared(trace['shared'])
         # decider
         sm = trace['sched']['mode']
+        instr = trace.get('granularity') == 'instr'
+        expected_steps = int(sum(refs[self._opkey(o, trace)].get('lines', 0) for o in ops) * (6.6 if instr else 1)) + 10
         if sm == 'rng':
-            decider = draw_decider(random.Random(trace['sched']['seed']), T)
+            decider = draw_decider(random.Random(trace['sched']['seed']), T, horizon=expected_steps)
+        elif sm == 'preempt':
+            L = refs[self._opkey(ops[0], trace)].get('lines', 0) * (6.6 if instr else 1) if ops else 0
+            pnt = 1 + int(trace['sched']['frac'] * max(L, 1))
+            sw = [[0, pnt, 1]] + ([[1, pnt, 0]] if trace['sched'].get('diag') else [])
+            decider = Replay(sw) if T > 1 else Decider()
         elif sm == 'rr':
             decider = RoundRobin(None, trace['sched'].get('q', 1)) if T > 1 else Decider()
         elif sm == 'rw':
@@ -515,7 +566,6 @@ class C09(CheckBase):
                 continue
             line = 1 + int(f['frac'] * r['lines'])
             fault_map[(o['id'], min(line, r['lines']))] = f['kind']
-        instr = trace.get('granularity') == 'instr'
         if instr:
             fault_map = {}
         sched = Sched(T, decider, log, self.is_sut_file, max_steps=RUN_STEP_BUDGET * (2 if instr else 1), faults=fault_map,
@@ -648,6 +698,7 @@ class C09(CheckBase):
             for op in per_thread[tid]:
                 run_op(tid, op)
 
+        ps0 = self.process_state()
         self.barrier_on = True
         try:
             sched.run([body] * T, wall_timeout=self.run_timeout - 15)
@@ -657,6 +708,12 @@ class C09(CheckBase):
             self.barrier_on = False
             self.cur_sched = None
         check_o1('end of run', None)
+        # interpreter-wide state
+        ps = self.process_state()
+        for k in sorted(ps0):
+            if ps[k] != ps0[k]:
+                viol.append({'oracle': 'O1-process-state-changed', 'site': k, 'detail': {'before': ps0[k][:300], 'after': ps[k][:300]}})
+                log.add('O1p', k)
         # module-level library data
         snap = self.module_snapshot()
         for key, (dg, judged) in self.base_mod.items():
